@@ -31,8 +31,10 @@ VARIABLES design,      \* the abstract design (see PickAPI / PickSvc / Pick* for
           mounts,      \* set of [method, pattern]
           srvOps,      \* set of Op
           doc3, doc2,  \* sets of Op
-          verdicts     \* [valid3, valid2, jy3, jy2, facts3, facts2]
+          verdicts,    \* [valid3, valid2, jy3, jy2, facts3, facts2]
+          xflag        \* part 2: "none" | "null" (the body of the exchange carries an explicit null for attribute 1)
 ovars == <<design, opc, mounts, srvOps, doc3, doc2, verdicts>>
+hvars == <<vars, xflag>>     \* the exchange (HTTPTransport's variables and xflag)
 
 RangeQ(q) == {q[i] : i \in DOMAIN q}
 ODev(d) == d \in design.devs
@@ -299,8 +301,8 @@ BuildV2 ==   /\ opc = "doc2" /\ doc2' = V2Ops(design) /\ opc' = "write" /\ UNCHA
 WriteDocs == /\ opc = "write" /\ verdicts' = VerdictsOf(design) /\ opc' = "done" /\ UNCHANGED <<design, mounts, srvOps, doc3, doc2>>
 
 ONext == (PickAPI \/ PickSvc \/ PickRoutes \/ PickParams \/ PickResps \/ PickSec \/ CloseFilesOnly \/ GenServer \/ BuildV3 \/ BuildV2 \/ WriteDocs)
-         /\ UNCHANGED vars
-OSpec == OInit /\ Init /\ [][ONext]_<<ovars, vars>>
+         /\ UNCHANGED hvars
+OSpec == OInit /\ Init /\ xflag = "none" /\ [][ONext]_<<ovars, hvars>>
 
 ---------------------------------------------------------------------------
 \* C07
@@ -312,5 +314,91 @@ FactsClean(f) == \A k \in DOMAIN f : f[k] = 0
 DocsValid == opc = "done" => verdicts.valid3 /\ verdicts.valid2 /\ FactsClean(verdicts.facts3) /\ FactsClean(verdicts.facts2)
 \* the fold of the mounted file-server patterns is the documented file operation
 FoldIsExpected == opc \in {"doc3", "doc2", "write", "done"} => ServedOps(mounts, srvOps) = ExpectedOps(design) \cup ExpectedFileOps(design)
+
+---------------------------------------------------------------------------
+(* Part 2 (C14).  One exchange of HTTPTransport: cfg.pa / cfg.ra, pv / rv, the wire, the server's decision
+   (invoked, status) are that module's.  Added here:
+     - requests a generated client cannot produce (raw requests): a JSON null for a body attribute (xflag) and
+       text that is not of the attribute's type (value shapes negu, frac, text), which the server's decoder refuses
+       before validation (XTypeReject);
+     - SchemaReqOK / SchemaRespOK: what the published OpenAPI 3 schema says about the wire request / response.
+   At design level the schema documents exactly the design's rules for what is on the wire, so it agrees with the
+   server (SchemaAgreesWithServer) and with the design (SchemaAgreesWithDesign).  Named deviations: *)
+XDeviations == {
+  "schema.empty_value_allowed",            \* allowEmptyValue: true on every query/header/cookie parameter: an empty value passes the schema unvalidated
+  "schema.map_key_rule_undocumented",      \* validations of map keys are not in the schema
+  "schema.map_length_undocumented",        \* MinLength/MaxLength of a map are not in the schema (no minProperties/maxProperties)
+  "schema.uint_minimum_missing",           \* unsigned integers are documented as plain integers: negative numbers pass
+  "schema.optional_not_nullable",          \* the server reads null as "not set"; the schema refuses null
+  "schema.bytes_length_on_encoded_text",   \* length bounds of Bytes are applied to the base64 text
+  "schema.response_cookie_value_schema",   \* a response cookie is documented as a Set-Cookie header with the schema of the cookie VALUE
+  "schema.error_response_media_type" }     \* declared errors are documented as application/vnd.goa.error, sent as application/json
+\* (plus the transport deviations of HTTPTransport: param.empty_string_is_absent, validate.absent_collection_length,
+\*  client.path_not_escaped, mux.double_unescape, response.header_array_joined, cookie.value_sanitized)
+
+MalShapes == {"negu", "frac", "text"}
+Malformed(v) == v # Absent /\ v.s \in MalShapes
+MalVals(a) ==
+  IF a.nest # "direct" \/ a.rule # "none" THEN {}
+  ELSE (IF a.kind = "uint" THEN {V("uint", 3, "negu", 1)} ELSE {})
+       \cup (IF a.kind \in {"int", "uint"} THEN {V(a.kind, 3, "frac", 1)} ELSE {})
+       \cup (IF a.kind \in {"int", "uint", "float", "bool"} THEN {V(a.kind, 3, "text", 1)} ELSE {})
+
+\* what the schema validator sees for attribute a: the value as it travels
+Seen(a, w) == Carried(a, w.v)
+EmptyParam(a, c) == a.loc \in {"query", "header", "cookie"} /\ a.kind = "string" /\ c.s = "empty"
+B64(n) == 4 * ((n + 2) \div 3)
+SchemaTypeOK(a, c) == CASE c.s = "negu" -> Dev("schema.uint_minimum_missing")
+                        [] c.s \in {"frac", "text"} -> FALSE
+                        [] OTHER -> TRUE
+RuleDocumented(a) == /\ ~(a.nest = "mapkey" /\ Dev("schema.map_key_rule_undocumented"))
+                     /\ ~(a.nest = "mapval" /\ a.rule \in {"cminlen", "cmaxlen"} /\ Dev("schema.map_length_undocumented"))
+\* deviations under which the verdict of the schema on a present value is not determined by the design's rule
+Blurred(a, c) == a.kind = "bytes" /\ a.rule \in {"minlen", "maxlen"} /\ Dev("schema.bytes_length_on_encoded_text")
+SchemaValueOK(a, c) ==
+  IF EmptyParam(a, c) /\ Dev("schema.empty_value_allowed") THEN {TRUE}
+  ELSE IF Blurred(a, c) THEN BOOLEAN
+  ELSE {SchemaTypeOK(a, c) /\ (LeafChecked(a, c) /\ RuleDocumented(a) /\ ~Malformed(c) => RuleOK(a, c))}
+SchemaAttrOK(a, w, flag) ==
+  IF flag = "null" THEN {a.mode # "required" /\ ~Dev("schema.optional_not_nullable")}
+  ELSE IF w.loc = "none" THEN {a.mode # "required"}
+  ELSE SchemaValueOK(a, Seen(a, w))
+\* the set of verdicts the schema may give on the request (a singleton unless a blurring deviation applies)
+SchemaReqVerdicts ==
+  IF ~Routed THEN {FALSE}                                  \* no operation matches the request line
+  ELSE {\A i \in PIdx : f[i] : f \in {g \in [PIdx -> BOOLEAN] : \A i \in PIdx : g[i] \in SchemaAttrOK(cfg.pa[i], wire[i], IF i = 1 THEN xflag ELSE "none")}}
+
+RespBlurred(a, w) ==
+  \/ a.loc = "cookie" /\ Dev("schema.response_cookie_value_schema")
+  \/ a.loc = "header" /\ a.nest = "elem" /\ w.v.cn >= 2 /\ Dev("response.header_array_joined")
+  \/ Blurred(a, w.v)
+SchemaRespAttrOK(a, w) ==
+  IF w.loc = "none" THEN {a.mode # "required" \/ a.loc = "cookie"}      \* (OpenAPI cannot require a cookie)
+  ELSE IF RespBlurred(a, w) THEN BOOLEAN
+  ELSE {LeafChecked(a, w.v) => RuleOK(a, w.v)}
+SchemaRespVerdicts ==
+  {\A j \in RIdx : f[j] : f \in {g \in [RIdx -> BOOLEAN] : \A j \in RIdx : g[j] \in SchemaRespAttrOK(cfg.ra[j], rwire[j])}}
+
+\* the server's decoder refuses text that is not of the attribute's type, before any validation
+XTypeReject ==
+  /\ pc = "route" /\ \E i \in PIdx : wire[i].loc # "none" /\ Malformed(wire[i].v)
+  /\ pc' = "cswitch" /\ status' = 400 /\ errname' = "invalid_field_type"
+  /\ UNCHANGED <<cfg, pv, rv, wire, delivered, invoked, rwire, returned, cerr>>
+XInit ==
+  /\ \E a \in AttrSpace : \E v \in PayloadVals(a) \cup MalVals(a), fl \in {"none", "null"} :
+       /\ (fl = "null" => v = Absent /\ a.loc = "body" /\ a.nest = "direct" /\ CanBeAbsent(a))
+       /\ cfg = [pa |-> <<a>>, ra |-> <<FixedAttr>>, tagged |-> FALSE, devs |-> Deviations] /\ pv = <<v>> /\ xflag = fl
+  /\ rv = <<FixedVal>> /\ pc = "encode" /\ wire = <<>> /\ delivered = <<>> /\ invoked = FALSE /\ status = 0 /\ errname = "none"
+  /\ rwire = <<>> /\ returned = <<>> /\ cerr = "none"
+XNext == (IF pc = "route" /\ \E i \in PIdx : wire[i].loc # "none" /\ Malformed(wire[i].v) THEN XTypeReject ELSE Next) /\ UNCHANGED xflag
+\* request family: the exchange above; response family: HTTPTransport's own enumeration (Family = "res")
+XSpec == (IF Family = "req" THEN XInit ELSE Init /\ xflag = "none") /\ OInit /\ [][XNext /\ UNCHANGED ovars]_<<hvars, ovars>>
+
+\* C14
+Answered == pc \in {"cswitch", "cdecode", "cvalidate", "done"}          \* the server has answered
+SchemaAgreesWithServer == Answered /\ wire # <<>> => \A so \in SchemaReqVerdicts : so = invoked
+SchemaAgreesWithDesign == Answered /\ wire # <<>> /\ xflag = "none" /\ (\A i \in PIdx : ~Malformed(pv[i])) =>
+                            \A so \in SchemaReqVerdicts : (Satisfies(cfg.pa, pv) => so) /\ (Violates(cfg.pa, pv) => ~so)
+ProducedResponseConforms == Answered /\ invoked /\ status \in {200, 201} /\ Satisfies(cfg.ra, rv) => \A sr \in SchemaRespVerdicts : sr
 
 =============================================================================
